@@ -797,6 +797,9 @@ hwloc_internal_distances_refresh_one(hwloc_topology_t topology,
 
   if (dist->iflags & HWLOC_INTERNAL_DIST_FLAG_OBJS_VALID)
     return 0;
+#ifdef HWLOC_VERIF
+  if (hwloc_verif_event) hwloc_verif_event("dist_refresh_write", dist->id, 0); /* the cached objects are about to be rewritten */
+#endif
 
   for(i=0; i<nbobjs; i++) {
     hwloc_obj_t obj;
